@@ -156,7 +156,8 @@ def blkq(name, entry, live=(), K=3, frame_n=576, mtu_min=None, defines=None, unw
     b = kw.pop("bounds", {})
     b = dict({"frame": "%d arbitrary bytes in an MTU-sized heap object" % frame_n, "MTU": ("[%d,%d] symbolic" % (mtu_min, frame_n)) if mtu_min is not None else ("%d (fixed)" % frame_n),
               "pre-state": "arbitrary valid interface record: mapper fields, seq, generations symbolic; observation list 0..%d nodes with distinct keys; icon cache present or not" % K}, **b)
-    return Query(name, "blk.c", entry, defines=d, unwind=unwind if unwind is not None else K + 3, unwindset=unwindset, replace=rep, bounds=b, replay=all(v == "unreachable_handler" for v in rep.values()), **kw)
+    kw.setdefault("replay", all(v == "unreachable_handler" for v in rep.values()))
+    return Query(name, "blk.c", entry, defines=d, unwind=unwind if unwind is not None else K + 3, unwindset=unwindset, replace=rep, bounds=b, **kw)
 
 
 def q_query(tier, K=3, frame_n=576, mtu_min=None, name="query"):
@@ -357,3 +358,41 @@ def c10(tier, seed):
     if tier == "thorough":
         qs += [q_pair(6), q_pair(6, query=True)]
     return qs
+
+
+REL_CLASSES = [  # (class id, name, live handlers, extra defines, max sends)
+    (0, "discover", ["answerHello"], ["HOSTLEN=33", "SSIDLEN=7"], 2),
+    (2, "emit", ["parseEmit"], [], 4),
+    (3, "probe", ["parseProbe"], [], 2),
+    (6, "query", ["parseQuery"], [], 2),
+    (8, "reset", [], [], 2),
+    (11, "qltlv_icon", ["parseQueryLargeTlv"], ["QTYPE=0x0E", "V_MEMCPY_RECORD"], 2),
+    (11, "qltlv_name", ["parseQueryLargeTlv"], ["QTYPE=0x11", "V_MEMCPY_RECORD"], 2),
+    (11, "qltlv_hwid", ["parseQueryLargeTlv"], ["QTYPE=0x13", "V_MEMCPY_RECORD"], 2),
+    (255, "other", [], [], 2),
+]
+REL_MODE_DESC = {0: "determinism: identical record and frame, independent fresh memory", 1: "C09 induction step: records differ only in stale mapper addresses while no mapper is active",
+                 2: "C09 direct: (arbitrary record -> topology Reset -> frame) vs (freshly started responder -> same frame)", 3: "C17: second interface's record present vs absent"}
+
+
+def q_rel(mode, K=2, only=None):
+    qs = []
+    for (cid, name, live, defs, maxsend) in REL_CLASSES:
+        if only and name not in only:
+            continue
+        rep = unreach(*live)
+        if name.startswith("qltlv_") is False and cid == 11:
+            pass
+        qs.append(blkq("blk_rel%d_%s" % (mode, name), "h_rel", K=K, replace=rep, defines=["REL_MODE=%d" % mode, "REL_CLASS=%d" % cid, "REL_MAXSEND=%d" % maxsend] + defs,
+                       unwind=max(K + 5, 36 if cid in (0, 11) else 0), no_std_checks=True, replay=False,
+                       bounds={"worlds": REL_MODE_DESC[mode], "compared": "per send: length and byte at a universally quantified index; post-records field by field; continuation frame of class '%s'" % name},
+                       desc="two-world relational step, class '%s': %s" % (name, REL_MODE_DESC[mode])))
+    return qs
+
+
+@prop("C09", ["step A: the Reset class query shows the record after a topology Reset equals a fresh record except for stale mapper addresses (masked by mapper_known = 0)",
+              "step B (induction): records that differ only in stale mapper addresses produce identical output and equivalent post-records for every frame class => identical traces for continuations of any length",
+              "direct cross-check with the record created by the real lltd_state_for_iface on a fresh registry, continuation length 1 per class",
+              "Emit continuation bounded to 3 descriptors; Hello with hostname length 33 / SSID length 7; observation list bound K=2; platform large-property data identical in both worlds (same getter results)"])
+def c09(tier, seed):
+    return [q_reset(tier, 3)] + q_rel(1) + q_rel(2)
